@@ -6,6 +6,8 @@ import json
 import os
 import sys
 
+if os.path.realpath(sys.executable) != os.path.realpath("/venv/bin/python") and os.path.exists("/venv/bin/python"):
+    os.execv("/venv/bin/python", ["/venv/bin/python"] + sys.argv)  # the digests depend on the interpreter's ast.dump
 sys.path.insert(0, os.path.dirname(os.path.dirname(os.path.abspath(__file__))))
 from harness import core
 
